@@ -592,11 +592,31 @@ def correspond(model_ok, res):
 SPEC = {
     "id": "C19",
     "targets": ["props/C19.vo"],
-    "model_targets": ["model/Schema.vo", "model/EsBuild.vo"],
+    "model_targets": ["model/Schema.vo", "model/SchemaSpec.vo", "model/EsBuild.vo"],
     "module": "C19",
-    "theorems": [],
+    "theorems": ["C19_builder_side", "C19_spellings_agree", "C19_query_refuted", "C19_nesting_refuted",
+                 "C19_typing_refuted", "C19_typing_partial", "C19_subfield_typing_partial",
+                 "C19_not_analyzed_fields", "C19_object_fields", "C19_nested_spellings", "C19_object_spellings"],
     "correspond": correspond,
-    "statement": "",
-    "trusted_base": [],
-    "assumptions": [],
+    "statement": "options m fed to the builder: both spellings of a mapped path give the same outcome, decided by "
+                 "not_analyzed_fields / the nested and object prefix sets (proved for every description); the clause "
+                 "is term-level iff the walked field is not analysed text (proved on coherent descriptions; "
+                 "multi-fields under the F12b guard); the full statement, its nesting clause and its typing clause "
+                 "are refuted (F12, F12b, F12c); equivalent spellings of field specifications give the same name and "
+                 "prefix sets (proved, up to the empty name)",
+    "trusted_base": [
+        "Coq 8.16.1 kernel (vm_compute used for the refuting witnesses, examples and correspondence)",
+        "no axioms (Print Assumptions: closed under the global context)",
+        "hand-written model coq/model/Schema.v of SchemaAnalyzer (walk with the re-binding of fname/fdef, "
+        "insertion-ordered dicts, cumulated-key construction of nested_fields), tied by differential "
+        "correspondence (harness/c19.py) on every run: all seven methods + builder outcome per leaf and spelling",
+        "builder model coq/model/EsBuild.v, EsCheck.v, EsSpecs.v (owned by C06/C07, validated by their correspondence)",
+        "gen/translate.py: visitor method tables, class MROs, E-item class constants",
+        "the nesting clause under the guard anchor_registered is established by the harness oracle only "
+        "(independent descent of the raw mapping), not by proof",
+    ],
+    "assumptions": ["type / index values are str; no explicit None values; sub-fields carry no explicit empty "
+                    "properties", "query word without wildcard characters; unnamed query nodes",
+                    "typing theorems: fields with the same dotted name agree on being analysed (coherent), "
+                    "name components without dots"],
 }
